@@ -45,6 +45,7 @@ type c07Params struct {
 	Variant   string `json:"variant,omitempty"`
 	Scheme    string `json:"scheme"`
 	N         int    `json:"n"`
+	Engine    string `json:"engine,omitempty"` // "" = bolt, "memdb"
 	Seed      uint64 `json:"case_seed"`
 }
 
@@ -75,6 +76,7 @@ func c07Cases() []c07Params {
 		add("refused-period", "", "")
 		add("refused-late", "", "")
 		add("evicted", "", "")
+		add("rejoin", "", "")
 		return out
 	}
 	for rep := 0; rep < 2; rep++ {
@@ -89,6 +91,10 @@ func c07Cases() []c07Params {
 				add("refused-late", "", s)
 			}
 			add("evicted", "", s)
+			add("rejoin", "", s)
+			if rep == 1 {
+				out[len(out)-1].Engine = "memdb" // there the re-join can leave the node with two handlers instead of a dead-lock
+			}
 		}
 	}
 	return out
@@ -108,7 +114,7 @@ func TestVF_C07(t *testing.T) {
 		cases = sel
 	}
 	dir := t.TempDir()
-	sem := make(chan struct{}, 6)
+	sem := make(chan struct{}, 8)
 	var wg sync.WaitGroup
 	for _, c := range cases {
 		wg.Add(1)
@@ -470,7 +476,11 @@ func c07Main(t *testing.T, run *vfRun, p c07Params, dir string) {
 	logFile, _ := os.Create(filepath.Join(dir, "daemons.log"))
 	defer logFile.Close()
 	lg := dlog.New(logFile, dlog.InfoLevel, true)
-	nt := c13NewNet(t, lg, filepath.Join(dir, "nodes"), sch, time.Second, 0, chain.BoltDB)
+	engine := chain.BoltDB
+	if p.Engine == "memdb" {
+		engine = chain.MemDB
+	}
+	nt := c13NewNet(t, lg, filepath.Join(dir, "nodes"), sch, time.Second, 0, engine)
 	defer nt.close()
 	m := &c07Mon{run: run, p: p, nt: nt, sch: sch, last: map[int]uint64{}, has: map[int]bool{}, sigs: map[uint64][]byte{},
 		firstPut: map[uint64]time.Time{}, putAt: map[int]map[uint64]time.Time{}, leavers: map[int]bool{}, newGroup: map[int]bool{}}
@@ -541,6 +551,10 @@ func c07Main(t *testing.T, run *vfRun, p c07Params, dir string) {
 
 	if strings.HasPrefix(p.Kind, "refused-") {
 		c07Refused(run, m, p, dir, ns, thr, refPkt, fail)
+		return
+	}
+	if p.Kind == "rejoin" {
+		c07Rejoin(run, m, p, ns, refPkt, fail)
 		return
 	}
 
@@ -1065,4 +1079,238 @@ func c07Refused(run *vfRun, m *c07Mon, p c07Params, dir string, ns []*c13Node, t
 				m.ci(map[string]any{"node": x.idx, "when": "daemon-restarted-from-disk"}))
 		}
 	}
+}
+
+// ---------------------------------------------------------------- a member leaves and is invited back
+
+type c07ProbeResult struct {
+	unanswered []string
+}
+
+// c07Probe asks node x for ChainInfo and PublicRand on its private port and Status on its control port, each with its
+// own bound, up to three times. A positive answer to all three is the signal looked for.
+func c07Probe(nt *c13Net, x *c13Node) c07ProbeResult {
+	probes := []struct {
+		name string
+		f    func() error
+	}{
+		{"ChainInfo", func() error { _, err := nt.chainInfo(x); return err }},
+		{"PublicRand", func() error { _, err := nt.publicRand(x, 0); return err }},
+		{"Status(control)", func() error { _, err := x.ctrl.Status(nt.beaconID); return err }},
+	}
+	var res c07ProbeResult
+	for _, pr := range probes {
+		ok := false
+		for attempt := 0; attempt < 3 && !ok; attempt++ {
+			done := make(chan error, 1)
+			go func() { done <- pr.f() }()
+			select {
+			case err := <-done:
+				ok = err == nil
+				if !ok {
+					time.Sleep(500 * time.Millisecond)
+				}
+			case <-time.After(8 * time.Second):
+			}
+		}
+		if !ok {
+			res.unanswered = append(res.unanswered, pr.name)
+		}
+	}
+	return res
+}
+
+// c07Rejoin: member x is removed by a first reshare (a new node joins), the chain runs across that transition, a
+// second reshare invites x back as a joiner (it joins with the current group file) and the chain runs across the
+// second transition with x contributing.
+func c07Rejoin(run *vfRun, m *c07Mon, p c07Params, ns []*c13Node, refPkt *drand.ChainInfoPacket, fail func(string, error)) {
+	nt := m.nt
+	rng := vfNewRng(p.Seed)
+	leader := ns[0]
+	x := ns[1+rng.Intn(len(ns)-1)]
+	info := func(extra map[string]any) map[string]any {
+		e := map[string]any{"rejoining_node": x.idx}
+		for k, v := range extra {
+			e[k] = v
+		}
+		return m.ci(e)
+	}
+	// how many handlers tick for x's address: one tick per handler per round
+	var tmu sync.Mutex
+	ticks := map[uint64]int{}
+	vfhook.SetPoint(func(name string, args ...any) {
+		if name != "handler.tick" || len(args) < 2 {
+			return
+		}
+		a, _ := args[0].(string)
+		r, ok := args[1].(uint64)
+		if a != x.addr || !ok {
+			return
+		}
+		tmu.Lock()
+		ticks[r]++
+		tmu.Unlock()
+	})
+	defer vfhook.SetPoint(nil)
+
+	// ---- first reshare: x leaves, a new node joins
+	joiners, err := nt.addNodes(1)
+	if err != nil {
+		fail("add joiner", err)
+		return
+	}
+	var rem []*c13Node
+	for _, n := range ns {
+		if n != x {
+			rem = append(rem, n)
+		}
+	}
+	g2, err := nt.runReshare(c13Reshare{leader: leader, remaining: rem, joining: joiners, leaving: []*c13Node{x}, thr: (len(rem)+1)/2 + 1})
+	if err != nil {
+		fail("first reshare (x leaves)", err)
+		return
+	}
+	run.Count("successful_reshares", 1)
+	members2 := append(append([]*c13Node(nil), rem...), joiners...)
+	tr1 := common.CurrentRound(g2.TransitionTime, g2.Period, g2.GenesisTime)
+	m.mu.Lock()
+	m.tr = tr1
+	m.leavers[x.idx] = true
+	for _, n := range members2 {
+		m.newGroup[n.idx] = true
+	}
+	m.mu.Unlock()
+	run.Eval("rejoin/progress-across-first-transition")
+	if !c07Progress(run, m, members2, tr1+3, int(tr1-nt.clockRound())+40, "C07/halted-after-transition/rejoin-first-reshare",
+		fmt.Sprintf("across the first transition round %d (x has left, %d members up)", tr1, len(members2))) {
+		return
+	}
+	ids, err := m.identities(members2)
+	if err != nil {
+		fail("ChainInfo after the first transition", err)
+		return
+	}
+	m.compareIdentity(refPkt, ids, "after-first-transition")
+
+	// ---- second reshare: x is invited back as a joiner
+	m.mu.Lock()
+	m.tr = 0 // the partial monitors are re-armed for the second transition below
+	m.leavers = map[int]bool{}
+	m.mu.Unlock()
+	g3, err := nt.runReshare(c13Reshare{leader: leader, remaining: members2, joining: []*c13Node{x}, thr: (len(members2)+1)/2 + 1})
+	if err != nil {
+		fail("second reshare (x invited back)", err)
+		return
+	}
+	run.Count("successful_reshares", 1)
+	run.Count("rejoin_reshares_completed", 1)
+	all := append(append([]*c13Node(nil), members2...), x)
+	tr2 := common.CurrentRound(g3.TransitionTime, g3.Period, g3.GenesisTime)
+	if g3.Find(x.priv.Public) == nil {
+		fail("second reshare", errors.New("the resulting group does not contain x"))
+		return
+	}
+	m.mu.Lock()
+	m.tr = tr2
+	for _, n := range all {
+		m.newGroup[n.idx] = true
+	}
+	m.mu.Unlock()
+
+	// x itself must keep answering: a beacon process wedged on its state lock answers nothing
+	wedged := func(when string) bool {
+		run.Eval("rejoin/x-answers/" + when)
+		res := c07Probe(nt, x)
+		if len(res.unanswered) == 0 {
+			run.Count("rejoined_member_probe_rounds_ok", 1)
+			return false
+		}
+		dump := vfGoroutineDump()
+		park := c13FilterDump(dump, "BeaconProcess).joinNetwork", "BeaconProcess).newBeacon", "BeaconProcess).StartBeacon")
+		if park == "" {
+			run.Inconclusive(fmt.Sprintf("case %d: %s: node %d did not answer %v, but no goroutine is parked in its join path (starved: %v)", p.CaseIndex, when, x.idx, res.unanswered,
+				nt.starvedBetween(time.Now().Add(-30*time.Second), time.Now())))
+			return true
+		}
+		waiters := c13FilterDump(dump, "sync.(*RWMutex)")
+		run.Violation("C07/rejoined-member-wedged", fmt.Sprintf(
+			"%s: node %d, invited back by the second reshare (completed on every member), does not answer %v (3 attempts of 8 s each). Its beacon process is parked while taking over the reshare output:\n%s\n--- goroutines waiting on a RWMutex:\n%s",
+			when, x.idx, res.unanswered, park, c13Short(waiters, 3000)), info(map[string]any{"when": when, "unanswered": res.unanswered}))
+		return true
+	}
+	if wedged("after-second-completion") {
+		// the others' chain is still looked at: with x dead the new group has to live on its threshold
+		c07Progress(run, m, members2, tr2+3, int(tr2-nt.clockRound())+40, "C07/halted-after-transition/rejoin",
+			fmt.Sprintf("across the second transition round %d (x wedged, %d other members up, threshold %d)", tr2, len(members2), g3.Threshold))
+		return
+	}
+	ids, err = m.identities(all)
+	if err != nil {
+		fail("ChainInfo after the second completion", err)
+		return
+	}
+	m.compareIdentity(refPkt, ids, "after-second-completion")
+
+	// ---- across the second transition
+	run.Eval("rejoin/progress-across-second-transition")
+	if !c07Progress(run, m, members2, tr2+4, int(tr2-nt.clockRound())+40, "C07/halted-after-transition/rejoin",
+		fmt.Sprintf("across the second transition round %d (%d members of the new group up, threshold %d)", tr2, len(all), g3.Threshold)) {
+		return
+	}
+	// x follows the chain
+	run.Eval("rejoin/x-follows")
+	if _, ok := nt.waitHeads([]*c13Node{x}, tr2+3, 30); !ok {
+		time.Sleep(30 * time.Second)
+		xh, _ := nt.head(x)
+		oh, _ := nt.head(leader)
+		if xh < tr2+3 && oh > xh+5 {
+			if nt.starvedBetween(time.Now().Add(-60*time.Second), time.Now()) {
+				run.Inconclusive(fmt.Sprintf("case %d: node %d lags (%d vs %d) but the box was not keeping pace", p.CaseIndex, x.idx, xh, oh))
+			} else {
+				run.Violation("C07/rejoined-member-lags", fmt.Sprintf("node %d, invited back, is at round %d while the others are at %d (second transition round %d), 30 periods + 30 s after they passed it\n%s",
+					x.idx, xh, oh, tr2, c13FilterDump(vfGoroutineDump(), "SyncManager).", "chainStore).")), info(map[string]any{"x_head": xh, "others_head": oh}))
+			}
+			return
+		}
+	}
+	if wedged("after-second-transition") {
+		return
+	}
+	ids, err = m.identities(all)
+	if err != nil {
+		fail("ChainInfo after the second transition", err)
+		return
+	}
+	m.compareIdentity(refPkt, ids, "after-second-transition")
+
+	// x contributes: its partials for rounds past the transition were taken by the others (the refused ones are
+	// reported by the member-partial monitor), and it runs ONE handler
+	tmu.Lock()
+	double := 0
+	for r, c := range ticks {
+		if r >= tr2 && c >= 2 {
+			double++
+		}
+	}
+	tmu.Unlock()
+	taps := 0
+	nt.mu.Lock()
+	tl := append([]*c13StoreTap(nil), nt.taps...)
+	nt.mu.Unlock()
+	for _, tp := range tl {
+		tp.omu.Lock()
+		if tp.owner == x {
+			taps++
+		}
+		tp.omu.Unlock()
+	}
+	run.Eval("rejoin/one-handler")
+	run.Count("rejoined_member_chain_stores_created", int64(taps))
+	if double >= 3 || taps >= 2 {
+		run.Violation("C07/rejoined-member-has-two-handlers", fmt.Sprintf("node %d: %d rounds since the second transition in which two beacon handlers ticked for its address, %d chain stores created over its life time", x.idx, double, taps),
+			info(map[string]any{"double_tick_rounds": double, "stores": taps}))
+	}
+	m.mu.Lock()
+	run.Count("puts_observed", m.puts)
+	m.mu.Unlock()
 }
